@@ -150,6 +150,22 @@ def derived_slices(b, param):
     return out
 
 
+def helper_guard(b, bb, param=2):
+    """a dominating branch on the result of a crate function (or a get/first/split on the slice, through
+    Option plumbing) that was handed the same input: it may be the length test"""
+    from flow import dom_guards
+    pt = ("param", param, b.local_name(param))
+    for (a, s_, c) in dom_guards(b, bb):
+        for x in walk(c[0]):
+            if x[0] == "call" and x[1] and x[1].startswith("mila::") and any(y == pt for a_ in x[2] for y in walk(a_)):
+                return True
+        # ... or on a flag set on several paths of an expanded helper (its `return false` / `return true`)
+        t_ = strip_refs(c[0])
+        if t_[0] == "var" and b.local_ty(t_[1]) == "bool" and len(b.defs().get(t_[1], [])) > 1 and getattr(b, "inlined", None):
+            return True
+    return False
+
+
 def raw_accesses(b, param):
     """(block, minimal length needed, description) for every raw index/slice of parameter `param`."""
     out = []
@@ -406,6 +422,8 @@ def lz13_classes(facts, rep, R1, R2):
                 have = max(have, length_guard(b, rec[4], 2), rec[6] + length_guard(b, bb, 2, of=rec[5]))
             if have >= need:
                 rep.ok(R2, {"fn": b.name, "access": desc, "needs_len": need, "guard_len": have})
+            elif helper_guard(b, bb):
+                rep.inconc(R2, "%s: %s sits behind a test computed by a helper on the same bytes; what that test establishes about the length is not followed" % (b.name.rsplit("::", 2)[-2], desc))
             else:
                 rep.violation(R2, b.name, "raw-access:" + desc, "%s reads %s (needs %d byte(s)) but only len >= %d is established: shorter input panics" % (b.name.rsplit("::", 2)[-2] + "::decompress", desc, need, have), where)
         if not acc:
@@ -570,7 +588,9 @@ def ok_provenance(facts, rep, R5):
             if stored:
                 continue
             conds = "; ".join(fmt(c[1])[:50] for c in p.conds)
-            if fmtn == LZ13 and tail_from(p.ret, 4):
+            if fmtn == LZ13 and (tail_from(p.ret, 4) or any(e["k"] == "call" and e["callee"] and e["callee"].rsplit("::", 1)[-1] in ("extend_from_slice", "extend", "to_vec", "copy_from_slice", "append")
+                                                         and (any(tail_from(a_, 4) for a_ in e["args"]) or any(
+                                                             x[0] == "param" and x[1] == 2 for a_ in e["args"][1:] for x in walk(a_))) for e in p.events)):
                 # a copy of the payload after the header: the stored form, selected by a test this rule did not decode
                 unk = "a path returns the payload after the header under conditions that are not recognised: [%s]" % conds[:160]
                 continue
